@@ -2,9 +2,21 @@ package ast
 
 import (
 	"fmt"
+	"reflect"
 
 	"fortio.org/log"
 )
+
+// shallowCopy returns a new node with the same content (for nodes that are pointers to a struct, which all are).
+func shallowCopy(n Node) Node {
+	v := reflect.ValueOf(n)
+	if v.Kind() != reflect.Ptr || v.IsNil() {
+		return n
+	}
+	c := reflect.New(v.Elem().Type())
+	c.Elem().Set(v.Elem())
+	return c.Interface().(Node)
+}
 
 func ModifyNoOk(node Node, f func(Node) Node) Node {
 	newNode, _ := Modify(node, func(n Node) (Node, bool) {
@@ -131,6 +143,11 @@ func Modify(node Node, f func(Node) (Node, bool)) (Node, bool) { //nolint:funlen
 			newKey, ok := Modify(key, f)
 			if !ok {
 				return nil, false
+			}
+			if _, dup := newNode.Pairs[newKey]; dup {
+				// The modifier gave the same node for two keys ({i: 1, i: 2} with i replaced by its register):
+				// pairs are keyed by node, each pair needs a node of its own.
+				newKey = shallowCopy(newKey)
 			}
 			newNode.Order = append(newNode.Order, newKey)
 			newNode.Pairs[newKey], cont = Modify(val, f)
